@@ -1441,6 +1441,11 @@ func (ch *checker) check(k *tcase, withModel bool) *tracer {
 		if t.memViol != "" {
 			c.Violate("memory-not-paid-for", t.memViol, k)
 		}
+		// growth bound (C07_memory_growth_bound): no frame of a run given g < 2^32 gas ever holds more than g/3 words,
+		// nor more than sqrt(512 g + 511) words
+		if pw := uint64(t.peakMem / 32); k.Gas < 1<<32 && (3*pw > k.Gas || pw*pw > 512*k.Gas+511) {
+			c.Violate("memory-growth-exceeds-gas-bound/"+caseHash(k), fmt.Sprintf("peak memory %d words for %d gas supplied (bound: 3w <= gas and w*w <= 512 gas + 511)", pw, k.Gas), k)
+		}
 		if t.maxDepth > 1025 {
 			c.Violate("depth-exceeds-1024", fmt.Sprintf("a frame ran at evm.depth %d (Yellow-Paper depth %d)", t.maxDepth, t.maxDepth-1), k)
 		}
@@ -2136,8 +2141,39 @@ func safeRequiredGas(p vm.PrecompiledContract, in []byte) (gas uint64, panicked 
 
 // every precompile, every epoch, adversarial inputs, gas around RequiredGas and a block's worth;
 // each call goes through the full check (oracles incl. panic / heap / watchdog, and the model)
+// bigModExp with more gas than any block holds (outside the property's quantifier): a declared exponent length of
+// 2^60 with a 1-byte modulus costs 4.6e17 gas; given 2^63 gas the contract asks make() for 2^60 bytes, which panics at
+// once (no allocation happens above the allocator's limit).  Recorded as an observation, and the model must say
+// the same (C07_never_panics_needs_gas_bound_refuted).
+func (ch *checker) modexpBeyondBlockGas() {
+	in := append(append(lenField(big.NewInt(0)), lenField(pow2(60))...), lenField(big.NewInt(1))...)
+	in = append(in, 3, 5)
+	for _, gas := range []uint64{1 << 63, gasLimit} {
+		k := &tcase{Kind: "call", Height: 40000, Gas: gas, Value: "0x0", Caller: ha(addrCaller), Target: "0x5", Data: hexb(in),
+			Accts: baseAccts(nil, nil, nil), Class: "observe/modexp-beyond-block-gas"}
+		st := buildState(k)
+		caller := addr0x(k.Caller)
+		ctx := vm.Context{CanTransfer: core.CanTransfer, Transfer: core.Transfer, GetHash: getHash,
+			Origin: caller, GasPrice: big.NewInt(gasPriceV), Coinbase: common.HexToAddress(coinbaseHx), GasLimit: gasLimit,
+			BlockNumber: big.NewInt(k.Height), Time: big.NewInt(timeV), Difficulty: big.NewInt(diffV)}
+		evm := vm.NewEVM(ctx, st, params.MainnetChainConfig, vm.Config{})
+		obs := "ok"
+		pan, _ := vh.CatchPanic(func() {
+			_, _, err := evm.Call(vm.AccountRef(caller), addr0x(k.Target), in, k.Gas, new(big.Int))
+			obs = errClass(err)
+		})
+		if pan {
+			obs = "panic"
+			ch.c.Count("observed/bigModExp-panics-when-given-more-gas-than-a-block-holds (4.6e17)")
+		}
+		ans := ch.m.Ask(k.request(false, 3000000, "-"))
+		ch.c.Correspond("RunPrecompiledContract(bigModExp) beyond block gas~Interp.run_precompile (result class incl. panic)", string(mustJSON(k)), obs, strings.SplitN(ans, " ", 2)[0])
+	}
+}
+
 func (ch *checker) precompileStream(g *gen) {
 	c := ch.c
+	ch.modexpBeyondBlockGas()
 	heights := []int64{10000, 30000, 40000}
 	for p := int64(1); p <= 9; p++ {
 		inner := precInner[byte(p)]
